@@ -590,7 +590,9 @@ def handle (line : String) : String :=
         -- a detector that wrote into its input (harness verdict `W`): what the following detectors see — and what
         -- the caller's buffer holds afterwards — then depends on how far the walk got
         let wr := if vs.contains 'W' then "SPEC C17:detector-writes-into-its-input ; SPEC C04:input-buffer-modified ; SPEC C03:detector-writes-into-its-input ; SPEC C01:detector-writes-into-its-input" else ""
-        let all := [d1, d2, dxi, dht, dcl, sp, sp8, sp9, sp11, wr].filter (· != "")
+        -- the caller's bytes (examined or beyond the limit) or the guard bytes around them changed during Detect
+        let md := if (goRes.splitOn " ").contains "MODIFIED" then "SPEC C04:input-buffer-modified ; SPEC C01:input-buffer-modified ; SPEC C17:detector-writes-into-its-input" else ""
+        let all := [d1, d2, dxi, dht, dcl, sp, sp8, sp9, sp11, wr, md].filter (· != "")
         if all.isEmpty then "OK" else String.intercalate " ; " all
       | _, _, _, _ => "BAD args"
     | ["jparse", q, hx] =>
